@@ -706,9 +706,27 @@ struct PadKind {
     name: &'static str,
     record: Record,
     plain: Bytes,
+    /// content type (data_encoding) of the pad in the record
+    ctype: u64,
 }
 
-const PAD_KINDS: [&str; 9] = ["valid1", "valid2", "valid3", "unsigned", "badsig", "inflated", "foreign", "wrongkey", "wrongkind"];
+/// reply kinds of a vault read (ClientAuth.tla PadKinds). "encoding" takes part only with VERIF_ENABLE_ENCODING=1.
+const PAD_KINDS_BASE: [&str; 15] = [
+    "valid1", "valid2", "valid3", "unsigned", "badsig", "inflated", "foreign", "wrongkey", "wrongkind", "paidforeign", "paidunsigned", "paidinflated", "padbody-chunkhdr", "swapdata",
+    "valid3b",
+];
+fn encoding_enabled() -> bool {
+    std::env::var("VERIF_ENABLE_ENCODING").map(|v| v == "1").unwrap_or(false)
+}
+fn pad_kinds() -> Vec<&'static str> {
+    let mut v = PAD_KINDS_BASE.to_vec();
+    if encoding_enabled() {
+        v.push("encoding");
+    }
+    v
+}
+/// the content type a holder writes into the "encoding" version (the owner wrote 0)
+const TAMPERED_CTYPE: u64 = 7;
 const CHUNK_KINDS: [&str; 7] = ["authentic", "wrongcontent", "wrongkey", "wrongkind", "padkind", "paidkind", "paidsubst"];
 /// a with-payment record wrapping (a proof of payment without quotes, a chunk of `bytes`)
 fn paid_wrapped(key: libp2p::kad::RecordKey, bytes: &Bytes) -> Record {
@@ -722,15 +740,24 @@ fn build_pads(owner: &bls::SecretKey, other: &bls::SecretKey) -> Vec<PadKind> {
     let pk2 = other.public_key();
     let key = NetworkAddress::from_scratchpad_address(ScratchpadAddress::new(pk)).to_record_key();
     let key2 = NetworkAddress::from_scratchpad_address(ScratchpadAddress::new(pk2)).to_record_key();
+    // the version the tampered ones are made from
+    let plain3 = Bytes::from("pad:valid3".to_string());
+    let enc3 = Bytes::from(pk.encrypt(&plain3).to_bytes());
+    let sig3 = owner.sign(signing_bytes(3, &enc3));
     let mut out = vec![];
-    for name in PAD_KINDS {
-        let plain = Bytes::from(format!("pad:{name}"));
+    for name in pad_kinds() {
+        let mut plain = Bytes::from(format!("pad:{name}"));
         // always readable by the requesting owner: a holder needs only the public key to encrypt
-        let enc = Bytes::from(pk.encrypt(&plain).to_bytes());
+        let mut enc = Bytes::from(pk.encrypt(&plain).to_bytes());
+        let mut ctype = 0u64;
+        let mut header = RecordKind::Scratchpad;
         let (addr_owner, counter, sig, rkey) = match name {
             "valid1" => (pk, 1, Some(owner.sign(signing_bytes(1, &enc))), key.clone()),
             "valid2" => (pk, 2, Some(owner.sign(signing_bytes(2, &enc))), key.clone()),
-            "valid3" => (pk, 3, Some(owner.sign(signing_bytes(3, &enc))), key.clone()),
+            "valid3" => {
+                enc = enc3.clone();
+                (pk, 3, Some(sig3.clone()), key.clone())
+            }
             "unsigned" => (pk, 5, None, key.clone()),
             "badsig" => (pk, 6, Some(other.sign(signing_bytes(6, &enc))), key.clone()),
             // the most extreme inflation: the largest counter value there is (boundary member of the class)
@@ -738,48 +765,119 @@ fn build_pads(owner: &bls::SecretKey, other: &bls::SecretKey) -> Vec<PadKind> {
             "foreign" => (pk2, 7, Some(other.sign(signing_bytes(7, &enc))), key.clone()),
             "wrongkey" => (pk2, 8, Some(other.sign(signing_bytes(8, &enc))), key2.clone()),
             "wrongkind" => {
-                out.push(PadKind { name, record: chunk_record(key.clone(), &plain), plain });
+                out.push(PadKind { name, record: chunk_record(key.clone(), &plain), plain, ctype });
                 continue;
             }
+            // well-formed (proof, pad) pairs under the with-payment header
+            "paidforeign" => {
+                header = RecordKind::ScratchpadWithPayment;
+                (pk2, 7, Some(other.sign(signing_bytes(7, &enc))), key.clone())
+            }
+            "paidunsigned" => {
+                header = RecordKind::ScratchpadWithPayment;
+                (pk, 5, None, key.clone())
+            }
+            "paidinflated" => {
+                header = RecordKind::ScratchpadWithPayment;
+                (pk, u64::MAX, Some(owner.sign(signing_bytes(2, &enc))), key.clone())
+            }
+            // the body of an (unsigned) pad behind a Chunk header
+            "padbody-chunkhdr" => {
+                header = RecordKind::Chunk;
+                (pk, 4, None, key.clone())
+            }
+            // counter and signature of valid3 over other encrypted data
+            "swapdata" => (pk, 3, Some(sig3.clone()), key.clone()),
+            // valid3 (same counter, data and signature) with the content type changed
+            "encoding" => {
+                plain = plain3.clone();
+                enc = enc3.clone();
+                ctype = TAMPERED_CTYPE;
+                (pk, 3, Some(sig3.clone()), key.clone())
+            }
+            // a second validly signed version with the highest counter
+            "valid3b" => (pk, 3, Some(owner.sign(signing_bytes(3, &enc))), key.clone()),
             _ => unreachable!(),
         };
-        let m = PadMirror { address: ScratchpadAddress::new(addr_owner), data_encoding: 0, encrypted_data: enc, counter, signature: sig };
-        let value = try_serialize_record(&m, RecordKind::Scratchpad).expect("serialise pad").to_vec();
-        out.push(PadKind { name, record: Record { key: rkey, value, publisher: None, expires: None }, plain });
+        let m = PadMirror { address: ScratchpadAddress::new(addr_owner), data_encoding: ctype, encrypted_data: enc, counter, signature: sig };
+        let value = if header == RecordKind::ScratchpadWithPayment {
+            let proof = ant_evm::ProofOfPayment { peer_quotes: vec![] };
+            try_serialize_record(&(proof, m), header).expect("serialise paid pad").to_vec()
+        } else {
+            try_serialize_record(&m, header).expect("serialise pad").to_vec()
+        };
+        out.push(PadKind { name, record: Record { key: rkey, value, publisher: None, expires: None }, plain, ctype });
     }
     // self-check of the mirror against the real type
     for p in &out {
         if p.name == "wrongkind" {
             continue;
         }
-        let real: Scratchpad = try_deserialize_record(&p.record).expect("mirror must deserialise as the real Scratchpad");
-        let want_valid = matches!(p.name, "valid1" | "valid2" | "valid3" | "foreign" | "wrongkey");
+        let want_valid = matches!(p.name, "valid1" | "valid2" | "valid3" | "foreign" | "wrongkey" | "paidforeign" | "valid3b" | "encoding");
+        let want_owner = if matches!(p.name, "foreign" | "wrongkey" | "paidforeign") { pk2 } else { pk };
+        let real: Scratchpad = if p.name.starts_with("paid") {
+            // a (proof, pad) pair is not a bare pad ...
+            assert!(try_deserialize_record::<Scratchpad>(&p.record).is_err(), "self-check: {} parses as a bare pad", p.name);
+            // ... but it is the well-formed pair a node stores
+            let (_proof, pad): (ant_evm::ProofOfPayment, Scratchpad) = try_deserialize_record(&p.record).expect("paid pad must deserialise as (proof, pad)");
+            pad
+        } else {
+            try_deserialize_record(&p.record).expect("mirror must deserialise as the real Scratchpad")
+        };
         assert_eq!(real.is_valid(), want_valid, "mirror self-check: is_valid of {}", p.name);
-        let want_owner = if matches!(p.name, "foreign" | "wrongkey") { pk2 } else { pk };
         assert_eq!(*real.owner(), want_owner, "mirror self-check: owner of {}", p.name);
         assert_eq!(real.decrypt_data(owner).expect("decrypt"), p.plain);
+        assert_eq!(real.data_encoding(), p.ctype);
     }
     out
 }
 
-fn outcome_answer(rng: &mut StdRng, oc: &Value, rec_of: &dyn Fn(&str) -> Record) -> Result<Record, GetRecordError> {
-    match oc["k"].as_str().expect("outcome kind") {
+/// a std HashMap holding `entries` that ITERATES in the order of `entries`: rebuilt with a fresh RandomState until it
+/// does (the iteration order of a small map is a function of the hasher's random keys). Returns the map and the order
+/// it really iterates in (indices into `entries`).
+fn ordered_map<V: Clone>(entries: &[(XorName, V)]) -> (HashMap<XorName, V>, Vec<usize>) {
+    let mut last = None;
+    for _ in 0..200_000 {
+        let mut m = HashMap::new();
+        for (k, v) in entries {
+            m.insert(*k, v.clone());
+        }
+        if m.len() == entries.len() && m.keys().zip(entries.iter()).all(|(a, (b, _))| a == b) {
+            return (m, (0..entries.len()).collect());
+        }
+        last = Some(m);
+    }
+    let m = last.expect("at least one attempt");
+    let order = m.keys().map(|k| entries.iter().position(|(b, _)| b == k).expect("own key")).collect();
+    (m, order)
+}
+
+/// the answer of the network layer's event loop for outcome `oc`, and (for a split) the kinds in the order in which
+/// the delivered result map iterates
+fn outcome_answer(rng: &mut StdRng, oc: &Value, rec_of: &dyn Fn(&str) -> Record) -> (Result<Record, GetRecordError>, Vec<String>) {
+    let ans = match oc["k"].as_str().expect("outcome kind") {
         "Ok" => Ok(rec_of(oc["v"].as_str().expect("v"))),
         "NotFound" => Err(GetRecordError::RecordNotFound),
         "Timeout" => Err(GetRecordError::QueryTimeout),
         "NotEnough" => Err(GetRecordError::NotEnoughCopies { record: rec_of(oc["v"].as_str().expect("v")), expected: 3, got: 1 }),
         "Split" => {
-            let mut result_map = HashMap::new();
+            let mut entries = vec![];
+            let mut names = vec![];
             for v in oc["vs"].as_array().expect("vs") {
-                let rec = rec_of(v.as_str().expect("v"));
+                let name = v.as_str().expect("v");
+                let rec = rec_of(name);
                 let mut peers = HashSet::new();
                 peers.insert(peer(rng));
-                result_map.insert(XorName::from_content(&rec.value), (rec, peers));
+                entries.push((XorName::from_content(&rec.value), (rec, peers)));
+                names.push(name.to_string());
             }
-            Err(GetRecordError::SplitRecord { result_map })
+            let (result_map, order) = ordered_map(&entries);
+            let realised = order.iter().map(|i| names[*i].clone()).collect();
+            return (Err(GetRecordError::SplitRecord { result_map }), realised);
         }
         other => panic!("unknown outcome {other}"),
-    }
+    };
+    (ans, vec![])
 }
 
 struct AuthWorld {
@@ -798,9 +896,10 @@ impl AuthWorld {
     fn pad_record(&self, name: &str) -> Record {
         self.pads.iter().find(|p| p.name == name).unwrap_or_else(|| panic!("pad kind {name}")).record.clone()
     }
-    fn pad_of_bytes(&self, value_or_plain: &[u8]) -> String {
+    /// which of the pads came back: identified by the decrypted data AND the content type
+    fn pad_of_bytes(&self, value_or_plain: &[u8], ctype: u64) -> String {
         for p in &self.pads {
-            if p.plain == value_or_plain {
+            if p.plain == value_or_plain && p.ctype == ctype {
                 return p.name.to_string();
             }
         }
@@ -836,7 +935,7 @@ impl AuthWorld {
         let client = self.client.clone();
         let ax = XorName(sha3(&self.x));
         let ay = XorName(sha3(&self.y));
-        let ans = {
+        let (ans, order) = {
             let me = &*self;
             let mut rng = me.rng.clone();
             outcome_answer(&mut rng, oc, &|k| me.chunk_reply(k))
@@ -864,13 +963,13 @@ impl AuthWorld {
                 json!({"k": "ok", "e": "", "addr": if h == ax { 1 } else if h == ay { 2 } else { 0 }})
             }
         };
-        self.tr.emit(json!({"ev": "ChunkGet", "req": 1, "outcome": oc, "res": resj, "keyok": asked_key_ok, "src": src}));
+        self.tr.emit(json!({"ev": "ChunkGet", "req": 1, "outcome": oc, "order": order, "res": resj, "keyok": asked_key_ok, "src": src}));
     }
 
     async fn vault_get(&mut self, api: &str, oc: &Value, src: &str) {
         self.net.reset();
         let client = self.client.clone();
-        let ans = {
+        let (ans, order) = {
             let me = &*self;
             let mut rng = me.rng.clone();
             outcome_answer(&mut rng, oc, &|k| me.pad_record(k))
@@ -883,11 +982,11 @@ impl AuthWorld {
         let decrypt = api == "decrypt";
         let fut = async move {
             if decrypt {
-                client.fetch_and_decrypt_vault(&sk).await.map(|(b, _enc)| (b, 0u64, true))
+                client.fetch_and_decrypt_vault(&sk).await.map(|(b, ctype)| (b, 0u64, ctype))
             } else {
                 client.verif_get_vault_from_network(&sk).await.map(|pad| {
                     let plain = pad.decrypt_data(&sk).unwrap_or_default();
-                    (plain, pad.count(), *pad.owner() == sk.public_key())
+                    (plain, pad.count(), pad.data_encoding())
                 })
             }
         };
@@ -902,27 +1001,36 @@ impl AuthWorld {
         })
         .await;
         let resj = match res {
-            Err(stuck) => json!({"k": "stuck", "e": stuck, "pad": "none", "count": 0}),
-            Ok(Err(p)) => json!({"k": "panic", "e": p.chars().take(120).collect::<String>(), "pad": "none", "count": 0}),
-            Ok(Ok(Err(e))) => json!({"k": "err", "e": err_name(&e), "pad": "none", "count": 0}),
-            Ok(Ok(Ok((plain, count, _own)))) => json!({"k": "ok", "e": "", "pad": self.pad_of_bytes(&plain), "count": count}),
+            Err(stuck) => json!({"k": "stuck", "e": stuck, "pad": "none", "count": 0, "ctype": 0}),
+            Ok(Err(p)) => json!({"k": "panic", "e": p.chars().take(120).collect::<String>(), "pad": "none", "count": 0, "ctype": 0}),
+            Ok(Ok(Err(e))) => json!({"k": "err", "e": err_name(&e), "pad": "none", "count": 0, "ctype": 0}),
+            // ctype: the content type handed to the caller (small values only; anything else is logged as 99)
+            Ok(Ok(Ok((plain, count, ctype)))) => json!({"k": "ok", "e": "", "pad": self.pad_of_bytes(&plain, ctype), "count": count, "ctype": ctype.min(99)}),
         };
-        self.tr.emit(json!({"ev": "VaultGet", "api": api, "owner": 1, "outcome": oc, "res": resj, "keyok": asked_key_ok, "src": src}));
+        // order: the order in which the delivered split map really iterates (= outcome.vs unless the rebuild gave up)
+        self.tr.emit(json!({"ev": "VaultGet", "api": api, "owner": 1, "outcome": oc, "order": order, "res": resj, "keyok": asked_key_ok, "src": src}));
     }
 }
 
-/// data_get_public of D1 with ONE position of its tree answered by an adversarial holder
+/// data_get_public (api "public") / data_get with the data map in hand (api "private") of D1 with ONE position of its
+/// tree answered by an adversarial holder
 #[allow(clippy::too_many_arguments)]
-async fn data_get_subst(w: &mut AuthWorld, d1: &Bytes, e1: &Encd, d2: &Bytes, e2: &Encd, lvl: &str, idx: &str, kind: &str, src: &str) {
+async fn data_get_subst(w: &mut AuthWorld, d1: &Bytes, e1: &Encd, d2: &Bytes, e2: &Encd, api: &str, lvl: &str, idx: &str, kind: &str, src: &str) {
     w.net.reset();
     let (Ok(s1), Ok(s2)) = (&e1.st, &e2.st) else {
         w.tr.emit(json!({"ev": "Skipped", "why": "tree of the input not readable by the reference reader", "src": src}));
         return;
     };
     let nl = s1.levels.len();
-    // target position -> (address in D1, replacement content from D2 at the same position)
+    if api == "private" && lvl == "root" {
+        w.tr.emit(json!({"ev": "Skipped", "why": "the private read does not fetch the root", "src": src}));
+        return;
+    }
+    let sibling = kind.starts_with("sibling");
+    // target position -> (address in D1, replacement content: from D2 at the same position, or -- sibling kinds -- the
+    // content of ANOTHER chunk of D1's own tree)
     let (target, repl): (XorName, Bytes) = if lvl == "root" {
-        (*e1.root.address().xorname(), e2.root.value().clone())
+        (*e1.root.address().xorname(), if sibling { e1.store[&s1.levels[0][0]].clone() } else { e2.root.value().clone() })
     } else {
         let li = match lvl {
             "top" => 0,
@@ -939,24 +1047,34 @@ async fn data_get_subst(w: &mut AuthWorld, d1: &Bytes, e1: &Encd, d2: &Bytes, e2
             "last" => n - 1,
             _ => n / 2,
         };
-        (s1.levels[li][i], e2.store[&s2.levels[li][i]].clone())
+        let repl = if sibling { e1.store[&s1.levels[li][(i + 1) % s1.levels[li].len()]].clone() } else { e2.store[&s2.levels[li][i]].clone() };
+        (s1.levels[li][i], repl)
     };
     let tkey = chunk_key(target);
     let client = w.client.clone();
     let addr = *e1.root.address().xorname();
+    let root = e1.root.clone();
+    let public = api == "public";
     let mut hit = false;
     let mut served = 0usize;
     let r1 = &e1.records;
     let r2 = &e2.records;
-    let res = drive(&mut w.net, guarded_async(async move { client.data_get_public(addr).await }), |net| {
+    let fut = async move {
+        if public {
+            client.data_get_public(addr).await
+        } else {
+            client.data_get(DataMapChunk::from(root)).await
+        }
+    };
+    let res = drive(&mut w.net, guarded_async(fut), |net| {
         let Some(p) = net.pending.pop_front() else { return false };
         served += 1;
         let ans = if p.key == tkey && !hit {
             hit = true;
             match kind {
                 "authentic" => Ok(r1[&p.key].clone()),
-                "wrongcontent" => Ok(chunk_record(p.key.clone(), &repl)),
-                "wrongkey" => Ok(chunk_record(chunk_key(XorName(sha3(&repl))), &repl)),
+                "wrongcontent" | "sibling" => Ok(chunk_record(p.key.clone(), &repl)),
+                "wrongkey" | "siblingkey" => Ok(chunk_record(chunk_key(XorName(sha3(&repl))), &repl)),
                 "wrongkind" => Ok(Record { key: p.key.clone(), value: try_serialize_record(&Chunk::new(repl.clone()), RecordKind::Register).expect("ser").to_vec(), publisher: None, expires: None }),
                 "missing" => Err(GetRecordError::RecordNotFound),
                 "paidsubst" => Ok(paid_wrapped(p.key.clone(), &repl)),
@@ -979,7 +1097,7 @@ async fn data_get_subst(w: &mut AuthWorld, d1: &Bytes, e1: &Encd, d2: &Bytes, e2
         Ok(Ok(Err(e))) => json!({"k": "err", "e": err_name(&e), "data": 0}),
         Ok(Ok(Ok(b))) => json!({"k": "ok", "e": "", "data": if b == *d1 { 1 } else if b == *d2 { 2 } else { 0 }}),
     };
-    w.tr.emit(json!({"ev": "DataGet", "req": 1, "levels": nl, "lvl": lvl, "idx": idx, "kind": kind, "hit": hit, "served": served, "res": resj, "src": src}));
+    w.tr.emit(json!({"ev": "DataGet", "api": api, "req": 1, "levels": nl, "lvl": lvl, "idx": idx, "kind": kind, "hit": hit, "served": served, "res": resj, "src": src}));
 }
 
 fn plain_encrypt(data: &Bytes) -> Option<Encd> {
@@ -996,6 +1114,18 @@ fn plain_encrypt(data: &Bytes) -> Option<Encd> {
 }
 
 async fn auth_mode(out: &str, cases: Option<String>, random: usize) {
+    // which api runs the split cases that are a NON-first iteration order of their version set (both | get | decrypt):
+    // the vault read does not depend on the build, so the two builds may share that work
+    let perm_api = arg("--perm-api").unwrap_or_else(|| "both".into());
+    // ... and this run takes the k-th of every n such cases ("k/n", default all)
+    let (perm_k, perm_n): (usize, usize) = arg("--perm-part")
+        .map(|s| {
+            let (k, n) = s.split_once('/').expect("--perm-part k/n");
+            (k.parse().expect("k"), n.parse().expect("n"))
+        })
+        .unwrap_or((0, 1));
+    let mut perm_seen = 0usize;
+    let kinds = pad_kinds();
     let seed = vtrace::seed_from_env();
     let max = *self_encryption::MAX_CHUNK_SIZE;
     let small = max <= 65536;
@@ -1014,7 +1144,7 @@ async fn auth_mode(out: &str, cases: Option<String>, random: usize) {
     let mut yb = vec![0u8; 200];
     rng.fill(&mut yb[..]);
     let mut w = AuthWorld { tr: Trace::create(out), client, net, rng, pads, owner, x: Bytes::from(xb), y: Bytes::from(yb) };
-    w.tr.emit(json!({"ev": "Config", "max": max, "seed": seed, "small": small, "padkinds": PAD_KINDS, "chunkkinds": CHUNK_KINDS}));
+    w.tr.emit(json!({"ev": "Config", "max": max, "seed": seed, "small": small, "padkinds": kinds, "chunkkinds": CHUNK_KINDS, "encoding": encoding_enabled(), "permapi": perm_api, "permpart": [perm_k, perm_n]}));
 
     // inputs for data_get_public substitution: one tree per reachable depth, two data of equal length each
     let mut trees: Vec<(Bytes, Encd, Bytes, Encd)> = vec![];
@@ -1068,8 +1198,24 @@ async fn auth_mode(out: &str, cases: Option<String>, random: usize) {
         match c["op"].as_str().expect("op") {
             "ChunkGet" => w.chunk_get(&c["outcome"], "tlc").await,
             "VaultGet" => {
-                w.vault_get("get", &c["outcome"], "tlc").await;
-                w.vault_get("decrypt", &c["outcome"], "tlc").await;
+                let vs: Vec<&str> = c["outcome"]["vs"].as_array().map(|a| a.iter().filter_map(|x| x.as_str()).collect()).unwrap_or_default();
+                let v1 = c["outcome"]["v"].as_str().unwrap_or("");
+                if vs.iter().chain(std::iter::once(&v1)).any(|k| !k.is_empty() && !kinds.contains(k)) {
+                    continue; // a reply kind that is not enabled in this run
+                }
+                let mut sorted = vs.clone();
+                sorted.sort();
+                let first_order = sorted == vs;
+                let mut mine = true;
+                if !first_order {
+                    mine = perm_seen % perm_n == perm_k;
+                    perm_seen += 1;
+                }
+                for api in ["get", "decrypt"] {
+                    if first_order || (mine && (perm_api == "both" || perm_api == api)) {
+                        w.vault_get(api, &c["outcome"], "tlc").await;
+                    }
+                }
             }
             "DataGet" => {
                 let want = c["levels"].as_u64().expect("levels") as usize;
@@ -1077,7 +1223,8 @@ async fn auth_mode(out: &str, cases: Option<String>, random: usize) {
                     continue; // this build cannot produce a tree of that depth
                 };
                 let (d1, e1, d2, e2) = (t.0.clone(), &t.1, t.2.clone(), &t.3);
-                data_get_subst(&mut w, &d1, e1, &d2, e2, c["lvl"].as_str().expect("lvl"), c["idx"].as_str().expect("idx"), c["kind"].as_str().expect("kind"), "tlc").await;
+                let api = c["api"].as_str().unwrap_or("public");
+                data_get_subst(&mut w, &d1, e1, &d2, e2, api, c["lvl"].as_str().expect("lvl"), c["idx"].as_str().expect("idx"), c["kind"].as_str().expect("kind"), "tlc").await;
             }
             other => panic!("unknown op {other}"),
         }
@@ -1087,7 +1234,7 @@ async fn auth_mode(out: &str, cases: Option<String>, random: usize) {
         let n = w.rng.gen_range(0..5usize);
         let mut vs: Vec<&str> = vec![];
         for _ in 0..n {
-            let k = PAD_KINDS[w.rng.gen_range(0..PAD_KINDS.len())];
+            let k = kinds[w.rng.gen_range(0..kinds.len())];
             if !vs.contains(&k) {
                 vs.push(k);
             }
